@@ -414,16 +414,27 @@ def eval (env : Env) : Plan → Except String (Hdr × List Row)
       let hs := idxs.filterMap (fun i => h[i]?)
       pure (fixHeader (hs.map (fun f => f.name)) hs, out)
     | .items items => do
-      -- a select item that does not resolve is evaluated per record: an error only if there is a record
-      let resolved ← items.mapM (fun (it : SelItem) => match it with
+      -- items are evaluated in order; the `AS` name of an item becomes a further name of its column for the
+      -- items after it (`evalColumn` appends it to Header[idx].Aliases).  An item that does not resolve is
+      -- evaluated per record: an error only if there is a record.
+      let step := fun (st : Except String (Hdr × List (Option Nat × String × String))) (it : SelItem) => do
+        let (h, acc) ← st
+        let addAlias := fun (h : Hdr) (i : Nat) (out : Option String) =>
+          match out with
+          | none => h
+          | some o => h.zipIdx.map (fun (fi : HField × Nat) =>
+              if fi.2 = i && !(eqFold fi.1.name o) && !(fi.1.aliases.any (fun a => eqFold a o))
+              then { fi.1 with aliases := fi.1.aliases ++ [o] } else fi.1)
+        match it with
         | .idx i out =>
           (match h[i]? with
-          | some f => pure (some i, out.getD f.name, f.view)
+          | some f => pure (addAlias h i out, acc ++ [(some i, out.getD f.name, f.view)])
           | none => throw bad)
         | .ref v n out =>
           (match fieldIndex h v n with
-          | .ok i => pure (some i, out.getD n, ((h[i]?).map (fun f => f.view)).getD "")
-          | .error e => if rows.isEmpty then pure (none, out.getD n, "") else throw (errStr e)))
+          | .ok i => pure (addAlias h i out, acc ++ [(some i, out.getD n, ((h[i]?).map (fun f => f.view)).getD "")])
+          | .error e => if rows.isEmpty then pure (h, acc ++ [(none, out.getD n, "")]) else throw (errStr e))
+      let (_, resolved) ← items.foldl step (pure (h, []))
       let idxs := resolved.filterMap (fun (x : Option Nat × String × String) => x.1)
       let out ← (if idxs.length = resolved.length then optE (projectImpl (chunkN env.w rows) idxs) else pure [])
       pure (resolved.map (fun (x : Option Nat × String × String) => { view := x.2.2, name := x.2.1, isJoin := false }), out)
